@@ -35,8 +35,12 @@ impl Vm {
     // As this isn't accounted for during compilation
     // The class call below writes the new instance into the callee slot
     // so reserve one rather than overwriting the value currently on top
+    // Growing the stack allocates and may collect, the message is not reachable
+    // from anywhere else yet
     let mut fiber = self.fiber;
+    self.push_root(error_message);
     fiber.ensure_stack(self, 2);
+    self.pop_roots(1);
     fiber.push(val!(error));
     fiber.push(error_message);
 
